@@ -1,4 +1,6 @@
 """C12 — client-visible behaviour does not depend on the storage engine."""
+import re
+
 from .. import core, hist
 from ..gen import KEY_POOL, hx, rng_for
 
@@ -40,6 +42,14 @@ def check(rep, tier, seed):
         g = [core.Case("backend", [hist.cfg_line(e, **extra)] + body, {"engine": e}) for e in ENGINES]
         groups.append(g)
         cases += g
+    # a key space spread over more than a thousand TiKV regions (the other engines report ONE partition): same answers
+    from . import c13
+    for i in range(1 if tier == "quick" else 3):
+        many = c13.many_regions_case(seed, i)
+        g = [core.ImplOnlyCase("backend", [many.lines[0] if e == "tikv" else hist.cfg_line(e)] + many.lines[1:], {"engine": e}, timeout=180)
+             for e in ("memkv", "tikv", "badger")]
+        groups.append(g)
+        cases += g
     core.run_cases(cases)
     for g in groups:
         for c in g:
@@ -47,7 +57,9 @@ def check(rep, tier, seed):
         base = g[0]
         for c in g[1:]:
             # the property itself: pairwise-equal transcripts (everything after the cfg line)
-            d = core.first_diff(base.impl[1:], c.impl[1:])
+            # (how many partitions an engine advertises is its own business: `streamadv pieces=<n>` is not compared)
+            canon = lambda outs: [re.sub(r"^streamadv pieces=\d+", "streamadv pieces=*", o) for o in outs]
+            d = core.first_diff(canon(base.impl[1:]), canon(c.impl[1:]))
             if d is not None:
                 txt = "# engines %s and %s answer differently at line %d (%s):\n#   %s: %s\n#   %s: %s" % (
                     base.meta["engine"], c.meta["engine"], d + 2, c.lines[d + 1], base.meta["engine"],
